@@ -71,6 +71,12 @@ def run(ctx):
                               "connect 9 1", "join", "send 2 3000", "recv 3 5000", "set 3 timeout 50", "recv 3 10",
                               "set 3 timeout 400", "bg recv 3 10", "sleepms 200", "send 2 6", "join"] + socklib.udp_pair(fam) +
                              ["bg recvfrom 4 100", "sleepms 50", "sendto 5 4 7 60", "join", "storm 0"])
+        # injected interruptions of the socket system calls themselves (no storm): connect restarted, waits resumed with what is left of the timeout
+        for fam in (4, 6):
+            for k in (1, 2, 4):
+                sscen.append(["scenario", "new 1 %d tcp" % fam, "bind 1", "listen 1", "new 2 %d tcp" % fam, "plan " + ",".join(["connect:EINTR"] * k), "connect 2 1",
+                              "plan " + ",".join(["poll:EINTR"] * k), "accept 3 1", "send 2 5", "plan " + ",".join(["poll:LATE40"] * k), "set 3 timeout 400", "recv 3 10",
+                              "plan " + ",".join(["poll:LATE60"] * k), "set 3 timeout %d" % (60 * k + 120), "recv 3 10"])
         sp, tp = ctx.path("isock.script"), ctx.path("isock.ndjson")
         open(sp, "w").write("\n".join("\n".join(s) for s in sscen) + "\n")
         rc, out, to = run_driver([sexe, sp, tp], timeout=120)
